@@ -308,6 +308,37 @@ theorem C05_transient_registration_has_no_store_id (cfg : Cfg) (evs more : List 
   rw [(C05_registration_fixes_store_id cfg evs more late name kind true rep hlive).2]
   simp [laneStoreId]
 
+/-- **A failing id lookup never degrades an item to transient.** If `store.store_id(name)` fails (an error other
+than `NoStoreAvailable`) when a lane that is to be persistent is registered — in the prologue over the initial
+endpoints or by `AddLane` at run time — or when a store is registered, the task ends with the error: the item is
+NOT registered (it gets no response stream, hence never runs with `store_id = None`), and nothing is stored or
+sent afterwards, whatever follows (`more`). The stored state is untouched for the next start. -/
+theorem C05_id_failure_never_degrades_to_transient (cfg : Cfg) (evs more : List PEv) (late : Bool) (name : Nat)
+    (kind : UKind) (rep : Bool) (hstore : cfg.hasStore = true) (hkind : kind ≠ .supply)
+    (hlive : (preach cfg evs).failed = false) :
+    (let s' := preach cfg (evs ++ .addLane late name kind false rep false :: more)
+     s'.failed = true ∧ s'.wt.reg.length = (preach cfg evs).wt.reg.length ∧ s'.laneSid = (preach cfg evs).laneSid ∧
+       s'.log = (preach cfg evs).log ∧ s'.store = (preach cfg evs).store) ∧
+    (let s' := preach cfg (evs ++ .addStore name false :: more)
+     s'.failed = true ∧ s'.storeCounter = (preach cfg evs).storeCounter ∧ s'.storeSid = (preach cfg evs).storeSid ∧
+       s'.log = (preach cfg evs).log ∧ s'.store = (preach cfg evs).store) := by
+  have hsid : laneStoreId cfg late name kind false = some (cfg.idFor name) :=
+    (C05_late_registration_as_init cfg name kind false hkind).2.1 hstore late
+  have h1 : pstep cfg (preach cfg evs) (.addLane late name kind false rep false) =
+      { preach cfg evs with failed := true } := by
+    simp [pstep, hlive, hsid]
+  have h2 : pstep cfg (preach cfg evs) (.addStore name false) = { preach cfg evs with failed := true } := by
+    simp [pstep, hlive, hstore]
+  have hsplit : ∀ e, preach cfg (evs ++ e :: more) = prun cfg (pstep cfg (preach cfg evs) e) more := by
+    intro e; simp [preach, prun, List.foldl_append]
+  constructor
+  · simp only [hsplit, h1]
+    rw [C05_store_failure_stops_everything cfg _ rfl more]
+    exact ⟨rfl, rfl, rfl, rfl, rfl⟩
+  · simp only [hsplit, h2]
+    rw [C05_store_failure_stops_everything cfg _ rfl more]
+    exact ⟨rfl, rfl, rfl, rfl, rfl⟩
+
 /-! ### Non-vacuity: concrete runs -/
 
 /-- The store names item `n` with id `n + 7`. -/
